@@ -53,6 +53,9 @@ void *realloc(void *ptr, size_t len)
     if (critical_context_level() > 0)
         abort();
 
+    if (len > (size_t)-1 - __WORDSIZE)
+        return 0; /* rounding len up below would wrap around */
+
     std::lock_guard<igris::syslock> lguard(lock);
 
     if (len % __WORDSIZE != 0)
